@@ -39,6 +39,8 @@ def _one(pid, a) -> int:
         mod = importlib.import_module(f'cc.rules.{pid.lower()}')
     except ModuleNotFoundError:
         print(f'ANALYSIS-ERROR: property={pid} has no checker'); return 2
+    except Exception as ex:        # a broken checker is an analysis error, never a verdict
+        print(f'ANALYSIS-ERROR: property={pid} checker cannot be loaded: {type(ex).__name__}: {ex}'); return 2
     def body(rep):
         from .api import program
         prog = program(os.path.join(a.repo, 'src'))
